@@ -34,6 +34,8 @@ def run(rep):
     grad2d.inverse_vjp_2d(rep, fnd, table, calls2.records, "C05")
     from .. import scalechecks
     scalechecks.dwt_vjp(rep, "C05", rep.tier)          # large inputs (size thresholds)
+    from .. import autogradchecks
+    autogradchecks.regimes(rep, "C05", autogradchecks.dwt_cases(), "C05: two calls before one backward, second backward, unused outputs")
     rep.assumptions += ["cotangents and inputs are eliminated by linearity (C07): the VJP operator is extracted on identity batches",
                         "TLC bounds in coverage.tlc_runs"]
 
